@@ -112,40 +112,57 @@ theorem signed_producers_canonical (W : Nat) (hW : 1 ≤ W) (a b : SRepr) (ha : 
 -- ================================================================== histories: "whichever constructor or operation produced the values"
 
 /-- **history theorem (canonical form).**  Run ANY finite program of library operations —
-    constructors/decoders (`const`), `clone`, `neg`, `abs`, `!`, `sqr`, `pow`, `<<`, `>>`, `+`, `-`,
-    `*`, `/`, `%`, `&`, `|`, `^`, `ones` — over a register file of canonical values, feeding results
+    constructors (`const`; `fromWords`: ANY raw word buffer through `from_buffer` + sign, which is how
+    `from_words`, the byte/chunk decoders, the parsers and `from_parts` build their result;
+    `fromUnsigned`/`fromSigned`: `From<uN>`/`From<iN>`), `clone`, `neg`, `abs`, `!`, `sqr`, `pow`, `<<`, `>>`,
+    `+`, `-`, `*`, `/`, `%`, `div_euclid`, `rem_euclid`, `&`, `|`, `^`, `ones`, and the `UBig`-only `set_bit`, `clear_bit`,
+    `clear_high_bits`, `split_bits` (both halves), `next_power_of_two` — over a register file of
+    canonical values, feeding results
     back as operands: every register ever produced (also those produced before a panic) is
     canonical.  (The per-operation facts are the theorems of C01/C02/C09 about the same executable
     model; decoders and raw `from_buffer`/`clone_from` are C07/C17.) -/
-theorem history_canonical (W : Nat) (hW : 4 ≤ W) (ops : List HOp) (env : List SRepr)
-    (henv : ∀ r ∈ env, SCanon W r) :
+theorem history_canonical (W : Nat) (hW : 4 ≤ W) (ops : List HOp) (hok : ∀ op ∈ ops, op.Ok W)
+    (env : List SRepr) (henv : ∀ r ∈ env, SCanon W r) :
     ∀ r ∈ (hrun W ops env).1, SCanon W r :=
-  (hrun_sound W hW ops env henv).1
+  (hrun_sound W hW ops hok env henv).1
 
 /-- **history theorem (values).**  The program computes exactly what the same program computes on
-    mathematical integers (`hrunSpec`: `+ - *`, truncating `/ %`, two's-complement `& | ^ !`,
+    mathematical integers (`hrunSpec`: `+ - *`, truncating `/ %`, Euclidean `div_euclid/rem_euclid`, two's-complement `& | ^ !`,
     `·2^n`, floor `/2^n`, `^`), stops at the same instruction, and panics only where the value-level
     program does (division by zero; `pow` whose result cannot be allocated). -/
-theorem history_values (W : Nat) (hW : 4 ≤ W) (ops : List HOp) (env : List SRepr)
-    (henv : ∀ r ∈ env, SCanon W r) :
-    hrunSpec ops (env.map (·.value W)) = ((hrun W ops env).1.map (·.value W), (hrun W ops env).2) :=
-  (hrun_sound W hW ops env henv).2
+theorem history_values (W : Nat) (hW : 4 ≤ W) (ops : List HOp) (hok : ∀ op ∈ ops, op.Ok W)
+    (env : List SRepr) (henv : ∀ r ∈ env, SCanon W r) :
+    hrunSpec W ops (env.map (·.value W)) = ((hrun W ops env).1.map (·.value W), (hrun W ops env).2) :=
+  (hrun_sound W hW ops hok env henv).2
 
 /-- **C05 for histories.**  For any two values ever produced by such a program — by whatever
     sequence of operations — `==` holds exactly when the values are equal, `cmp` is the order of the
     values (and `Equal` exactly when `==`), and the hash feeds are equal exactly when the values are. -/
-theorem history_eq_cmp_hash (W : Nat) (hW : 4 ≤ W) (ops : List HOp) (env : List SRepr)
-    (henv : ∀ r ∈ env, SCanon W r) (a b : SRepr)
+theorem history_eq_cmp_hash (W : Nat) (hW : 4 ≤ W) (ops : List HOp) (hok : ∀ op ∈ ops, op.Ok W)
+    (env : List SRepr) (henv : ∀ r ∈ env, SCanon W r) (a b : SRepr)
     (ha : a ∈ (hrun W ops env).1) (hb : b ∈ (hrun W ops env).1) :
     (a.beq W b = true ↔ a.value W = b.value W) ∧
     a.cmp b = compare (a.value W) (b.value W) ∧
     (a.cmp b = .eq ↔ a.beq W b = true) ∧
     (a.hashFeed W = b.hashFeed W ↔ a.value W = b.value W) ∧
     (a.value W = b.value W → a = b) := by
-  have ca := history_canonical W hW ops env henv a ha
-  have cb := history_canonical W hW ops env henv b hb
+  have ca := history_canonical W hW ops hok env henv a ha
+  have cb := history_canonical W hW ops hok env henv b hb
   exact ⟨SRepr.beq_iff W a b ca cb, SRepr.cmp_spec W a b ca cb, SRepr.cmp_eq_iff W a b ca cb,
     SRepr.hashFeed_iff W a b ca cb, SRepr.canon_unique W a b ca cb⟩
+
+-- non-vacuity of `HOp.Ok`: a raw buffer with leading zero words, a primitive at the edge of its range
+example : (∀ op ∈ [HOp.fromWords true [5, 0, 7, 0, 0], .fromSigned 8 (-128), .fromUnsigned (2 ^ 100),
+      .setBit 2 200, .clearBit 3 200, .splitHi 3 64, .nextPow2 5], op.Ok 64) ∧
+    (hrun 64 [.fromWords true [5, 0, 7, 0, 0], .fromSigned 8 (-128), .fromUnsigned (2 ^ 100),
+      .setBit 2 200, .clearBit 3 200, .splitHi 3 64, .nextPow2 5] []).1
+      = [⟨true, .large [5, 0, 7]⟩, ⟨true, .small 128⟩, ⟨false, .small (2 ^ 100)⟩,
+         ⟨false, .large [0, 2 ^ 36, 0, 256]⟩, ⟨false, .small (2 ^ 100)⟩, ⟨false, .large [2 ^ 36, 0, 256]⟩,
+         ⟨false, .large [0, 0, 512]⟩] := by
+  refine ⟨?_, by decide⟩
+  intro op hop
+  simp only [List.mem_cons, List.mem_nil_iff, or_false] at hop
+  rcases hop with rfl | rfl | rfl | rfl | rfl | rfl | rfl <;> simp [HOp.Ok] <;> decide
 
 -- non-vacuity: x·y/y, (x<<70)>>70 and x+y−y rebuild the register-0 value 2^64+5 by three routes
 -- that cross the inline/heap boundary; all copies are the identical representation
@@ -213,6 +230,27 @@ theorem float_results_fit (B : Nat) (hB : 2 ≤ B) (m : Float.Mode) (c : Float.C
     obtain ⟨r, e, h, _⟩ := Float.reprDiv_digits_le B hB m p hp x y hy hfit
     exact ⟨r, e, h⟩
 
+/-- **Float producers return the canonical representation** (`Repr::new` = `normalize` at the end of
+    every path): `mul/sqr/cubic`, `repr_round_sum` and `repr_div` always; `repr_round`
+    (`with_precision`) and `add/sub` for canonical operands (they may hand an operand through
+    unchanged).  With `float_eq_iff_cmp_equal` this gives `==` ⇔ equal values ⇔ `cmp = Equal` for
+    the results of these operations, whatever their precisions. -/
+theorem float_results_canonical (B : Nat) (hB : 2 ≤ B) (m : Float.Mode) (c : Float.Coarse) (dub : Int → Nat)
+    (p : Nat) (x y : Dashu.Model.Float.FRepr) (rs : Int)
+    (hx : FCanon B (ofFloatRepr x)) (hy : FCanon B (ofFloatRepr y)) :
+    FCanon B (ofFloatRepr (Float.reprRound B m c p x).1) ∧
+    FCanon B (ofFloatRepr (Float.ctxAddSub B m c dub p x y rs).1) ∧
+    (∀ fixed (u v : Dashu.Model.Float.FRepr), FCanon B (ofFloatRepr (Float.ctxMul fixed B m c p u v).1)) ∧
+    (∀ (u v : Dashu.Model.Float.FRepr) r, Float.reprDiv B m p u v = .ok r → FCanon B (ofFloatRepr r.1)) :=
+  ⟨reprRound_fcanon B hB m c p x hx, ctxAddSub_fcanon B hB m c dub p x y rs hx hy,
+   fun fixed u v => ctxMul_fcanon fixed B hB m c p u v, fun u v r h => reprDiv_fcanon B hB m p u v r h⟩
+
+-- non-vacuity: `1230 − 1` and `12.29·10^2` built by a product are the same canonical value
+example : FCanon 10 (ofFloatRepr ⟨123, 1⟩) ∧ FCanon 10 (ofFloatRepr ⟨1, 0⟩) ∧
+    ofFloatRepr (Float.ctxAddSub 10 .halfEven Float.coarseNone (fun s => Float.digitsI 10 s) 3 ⟨123, 1⟩ ⟨1, 0⟩ (-1)).1
+      = ⟨1229, 0⟩ := by
+  refine ⟨⟨by decide, by decide⟩, ⟨by decide, by decide⟩, by decide⟩
+
 /-- hence comparison of any two such results (of any precisions `pa`, `pb ≥ 1`, any rounding modes —
     the mode does not occur in the comparison) is the order of their exact values -/
 theorem float_cmp_of_results (B : Nat) (hB : 2 ≤ B) (digitsUb : Int → Nat)
@@ -269,6 +307,18 @@ theorem rbig_eq (a b : QRepr) (ha : 0 < a.den) (hb : 0 < b.den)
   simp only [rbigEq, Bool.and_eq_true, beq_iff_eq] at h
   rw [h.1, h.2]
 
+/-- **`Hash for RBig` is a function of the value, and an injective one**: two reduced fractions feed
+    the same sequence (numerator feed, then denominator feed) to the `Hasher` exactly when their
+    values are equal.  (`Relaxed` implements no `Hash`, `FBig` implements no `Hash` either — their
+    `NumHash` is C14.) -/
+theorem rbig_hash_follows_value (W : Nat) (hW : 1 ≤ W) (a b : QRepr) (ha : 0 < a.den) (hb : 0 < b.den)
+    (hra : Nat.gcd a.num.natAbs a.den = 1) (hrb : Nat.gcd b.num.natAbs b.den = 1) :
+    a.hashFeed W = b.hashFeed W ↔ a.num * b.den = b.num * a.den := by
+  rw [QRepr.hashFeed_iff W hW, ← (rbig_eq a b ha hb hra hrb).1]
+  constructor
+  · rintro rfl; simp [rbigEq]
+  · exact (rbig_eq a b ha hb hra hrb).2
+
 /-- `cmp == Equal` exactly when `==` for rationals -/
 theorem ratio_cmp_equal_iff_eq (a b : QRepr) (ha : 0 < a.den) (hb : 0 < b.den) :
     reprCmp a b = .eq ↔ reprEq a b = true := by
@@ -278,5 +328,19 @@ theorem ratio_cmp_equal_iff_eq (a b : QRepr) (ha : 0 < a.den) (hb : 0 < b.den) :
 example : SCanon 64 ⟨true, .large [5, 7, 1]⟩ ∧ SCanon 64 ⟨true, .large [5, 8, 1]⟩ ∧
     SRepr.cmp ⟨true, .large [5, 7, 1]⟩ ⟨true, .large [5, 8, 1]⟩ = .gt := by
   refine ⟨by decide, by decide, by decide⟩
+
+-- ---------------------------------------------------------------- non-vacuity (floats, rationals)
+-- `float_cmp`'s hypothesis met by a value with the spare digit (1229 at precision 3) against 1·10^3,
+-- where the precision shortcut is exactly at its threshold; and an infinity against a finite value
+example : ((1229 : Int).natAbs < 10 ^ (3 + 1)) ∧ ((1 : Int).natAbs < 10 ^ (1 + 1)) ∧
+    reprCmpSameBase 10 (fun _ => 4) ⟨1, 3⟩ ⟨1229, 0⟩ (some (1, 3)) = .lt ∧
+    reprCmpSameBase 10 (fun _ => 4) ⟨0, -1⟩ ⟨-5, 40⟩ none = .lt := by
+  refine ⟨by decide, by decide, by decide, by decide⟩
+
+-- non-reduced fractions on both sides of a bit-length shortcut: 6/4 = 3/2, 6/4 < 200/3, -7/3 < 6/4
+example : reprCmp ⟨6, 4⟩ ⟨3, 2⟩ = .eq ∧ reprEq ⟨6, 4⟩ ⟨3, 2⟩ = true ∧ reprCmp ⟨6, 4⟩ ⟨200, 3⟩ = .lt ∧
+    reprCmp ⟨-7, 3⟩ ⟨6, 4⟩ = .lt ∧ rbigEq ⟨3, 2⟩ ⟨3, 2⟩ = true ∧
+    Nat.gcd (3 : Int).natAbs 2 = 1 ∧ (QRepr.hashFeed 64 ⟨3, 2⟩ = QRepr.hashFeed 64 ⟨3, 2⟩) := by
+  refine ⟨by decide, by decide, by decide, by decide, by decide, by decide, rfl⟩
 
 end Dashu.Props.C05
